@@ -476,50 +476,44 @@ theorem loadEnter_noMarks {m : Mach U} (st : List Bool) (hn : m.root.NoMarks)
 
 /-! ### replays -/
 
-theorem foldl_applyRequest_errLe : (l : List (Transition × Nat)) → (m : Mach U) →
-    World.ErrLe m.w (l.foldl (fun m (x : Transition × Nat) => m.applyRequest x.1 x.2) m).w
+theorem foldl_applyStep_errLe : (l : List (Transition × Nat)) → (m : Mach U) →
+    World.ErrLe m.w (l.foldl applyStep m).w
   | [], m => World.ErrLe.refl _
-  | x :: rest, m => World.ErrLe.trans (applyRequest_errLe m x.1 x.2) (foldl_applyRequest_errLe rest _)
+  | x :: rest, m => World.ErrLe.trans (applyStep_errLe m x) (foldl_applyStep_errLe rest _)
 
-theorem foldl_applyRequest_live {base : Node} : (l : List (Transition × Nat)) → (m : Mach U) → LiveInv base m →
-    (l.foldl (fun m (x : Transition × Nat) => m.applyRequest x.1 x.2) m).w.err = none →
-    LiveInv base (l.foldl (fun m (x : Transition × Nat) => m.applyRequest x.1 x.2) m)
+theorem foldl_applyStep_live {base : Node} : (l : List (Transition × Nat)) → (m : Mach U) → LiveInv base m →
+    (l.foldl applyStep m).w.err = none → LiveInv base (l.foldl applyStep m)
   | [], m, hi, _ => hi
   | x :: rest, m, hi, he => by
       simp only [List.foldl] at he ⊢
-      exact foldl_applyRequest_live rest _ (applyRequest_live x.1 x.2 hi (foldl_applyRequest_errLe rest _ he)).1 he
+      exact foldl_applyStep_live rest _ (applyStep_live x hi (foldl_applyStep_errLe rest _ he)).1 he
 
-theorem foldl_applyRequest_dres {base : Node} : (l : List (Transition × Nat)) → (m : Mach U) → DResInv base m →
-    (l.foldl (fun m (x : Transition × Nat) => m.applyRequest x.1 x.2) m).w.err = none →
-    DResInv base (l.foldl (fun m (x : Transition × Nat) => m.applyRequest x.1 x.2) m)
+theorem foldl_applyStep_dres {base : Node} : (l : List (Transition × Nat)) → (m : Mach U) → DResInv base m →
+    (l.foldl applyStep m).w.err = none → DResInv base (l.foldl applyStep m)
   | [], m, hi, _ => hi
   | x :: rest, m, hi, he => by
       simp only [List.foldl] at he ⊢
-      exact foldl_applyRequest_dres rest _ (applyRequest_dres x.1 x.2 hi (foldl_applyRequest_errLe rest _ he)).1 he
-
-theorem applyRequests_fst (m : Mach U) (ts : List Transition) :
-    (m.applyRequests ts).1 =
-      ts.zipIdx.foldl (fun m (x : Transition × Nat) => m.applyRequest x.1 x.2) ({ m with w := m.w.freshControl } : Mach U) := rfl
+      exact foldl_applyStep_dres rest _ (applyStep_dres x hi (foldl_applyStep_errLe rest _ he)).1 he
 
 theorem applyRequests_errLe (m : Mach U) (ts : List Transition) : World.ErrLe m.w (m.applyRequests ts).1.w := by
   rw [applyRequests_fst]
-  intro h; have := foldl_applyRequest_errLe _ _ h; simpa using this
+  intro h; have := foldl_applyStep_errLe _ _ h; simpa using this
 
 theorem applyRequests_live {base : Node} {m : Mach U} (ts : List Transition) (hi : LiveInv base m)
     (he : (m.applyRequests ts).1.w.err = none) : LiveInv base (m.applyRequests ts).1 := by
   rw [applyRequests_fst] at he ⊢
-  exact foldl_applyRequest_live _ _ ⟨hi.shape, hi.live, hi.good.of_eq rfl rfl rfl⟩ he
+  exact foldl_applyStep_live _ _ ⟨hi.shape, hi.live, hi.good.of_eq rfl rfl rfl⟩ he
 
 theorem applyRequests_dres {base : Node} {m : Mach U} (ts : List Transition) (hi : DResInv base m)
     (he : (m.applyRequests ts).1.w.err = none) : DResInv base (m.applyRequests ts).1 := by
   rw [applyRequests_fst] at he ⊢
-  exact foldl_applyRequest_dres _ _ ⟨hi.shape, hi.dres, hi.good.of_eq rfl rfl rfl⟩ he
+  exact foldl_applyStep_dres _ _ ⟨hi.shape, hi.dres, hi.good.of_eq rfl rfl rfl⟩ he
 
 theorem replayTransitions_spec (m : Mach U) (ts : List Transition) :
     ∃ (m0 : Mach U) (ar : Mach U × Bool) (c : Node × World U),
       m0 = ({ m with w := World.withPrevious m.w.clearTargets [] } : Mach U) ∧
       ar = m0.applyRequests ts ∧
-      c = ar.1.root.commit ((World.withPrevious ar.1.w.freshControl ts).snapshot ar.1.root false false) ∧
+      c = ar.1.root.commit ((World.withPrevious ar.1.w.freshControl (ts.take ar.1.w.cfg.historyCap)).snapshot ar.1.root false false) ∧
       m.replayTransitions ts =
         if ts.isEmpty then (m0, false)
         else if ar.2 then (({ ar.1 with root := c.1.clearMarks, w := c.2 } : Mach U).updateActivity, true)
@@ -614,7 +608,7 @@ theorem replayEnter_spec (m : Mach U) (ts : List Transition) :
       m0 = ({ m with w := m.w.clearTargets } : Mach U) ∧
       r1 = m0.root.request { kind := .change, index := none } ((m0.w.freshControl).snapshot m0.root true false) ∧
       ar = ({ m0 with root := r1.1, w := r1.2 } : Mach U).applyRequests ts ∧
-      e = ar.1.root.enter ((World.withPrevious ar.1.w.freshControl ts).snapshot ar.1.root false false) ∧
+      e = ar.1.root.enter ((World.withPrevious ar.1.w.freshControl (ts.take ar.1.w.cfg.historyCap)).snapshot ar.1.root false false) ∧
       m.replayEnter ts =
         if ts.isEmpty then (m0, false)
         else if ar.2 then (({ ar.1 with root := e.1.clearMarks, w := e.2 } : Mach U).updateActivity, true)
